@@ -44,7 +44,7 @@ Fixpoint feed_go (s : dstate) (pieces : list (list Z)) (tr : list (event * list 
   match pieces with
   | [] => (s, tr, REof)
   | p :: ps =>
-    match feed_piece (4 * length p + 16) s p tr with
+    match feed_piece (5 * length p + 8) s p tr with
     | (s', tr', None) => feed_go s' ps tr'
     | (s', tr', Some r) => (s', tr', r)
     end
